@@ -7,6 +7,8 @@ impl CanonicalRequest {
         &&& forall|k: String| #[trigger] self.query_parameters@.contains_key(k) ==> self.query_parameters@[k]@.len() > 0
         &&& forall|k: String| #[trigger] self.headers@.contains_key(k) ==> self.headers@[k]@.len() > 0
     }
+    pub closed spec fn qp(&self) -> Map<String, Vec<String>> { self.query_parameters@ }
+    pub closed spec fn hd(&self) -> Map<String, Vec<Vec<u8>>> { self.headers@ }
     pub closed spec fn method_bytes(&self) -> Seq<u8> { str_bytes(self.request_method@) }
     pub closed spec fn path_bytes(&self) -> Seq<u8> { str_bytes(self.canonical_path@) }
     pub closed spec fn qview(&self) -> QMap { qmap(self.query_parameters@) }
@@ -34,13 +36,13 @@ impl CanonicalRequest {
 //@ props C08
 //@ ret r
 //@ spec
-    ensures r@ == self.query_parameters@,
+    ensures r@ == self.qp(),
 //@ end
 //@ fn canonical.rs impl CanonicalRequest :: headers
 //@ props C08
 //@ ret r
 //@ spec
-    ensures r@ == self.headers@,
+    ensures r@ == self.hd(),
 //@ end
 //@ fn canonical.rs impl CanonicalRequest :: body_sha256
 //@ props C08 C01
